@@ -171,6 +171,38 @@ def forged_scripts(rng, tier):
     return out
 
 
+def xtn_edge_scripts(rng, tier):
+    """RFC 6904 / cryptex header-extension walks at the END of the buffer: ragged element streams (lone last octet,
+    elements ending at / beyond the block), empty payload, no tag and no MKI (so in place nothing follows the extension),
+    exact-size output buffers out of place."""
+    out = []
+    n = 10 if tier == "quick" else 80
+    for k in range(n):
+        ssrc = rng.randrange(2, 1 << 32)
+        ids = bytes(rng.sample(range(1, 15), rng.choice([1, 2, 14])))
+        notag = k % 2 == 0
+        rtp = cp(auth=NULL_AUTH, authkeylen=0, taglen=0, serv=rng.choice([1, 1, 0])) if notag else cp(taglen=rng.choice([4, 10]), serv=rng.choice([3, 2]))
+        cryptex = (k % 5 == 4)
+        p = default_policy(rng, ssrc, rtp=rtp, enc_xtn=b"" if cryptex else ids, cryptex=cryptex)
+        L = [p.line(1), "create 1 1", "create 2 1"]
+        seq = 1
+        for i in range(24 if tier == "quick" else 60):
+            ext = ragged_ext(rng, list(ids)) if rng.random() < 0.85 else rand_ext(rng, list(ids))
+            pay = rng.choice([0, 0, 0, 1, 4])
+            pkt = rtp_packet(ssrc, seq, payload=rand_key(rng, pay), cc=rng.choice([0, 0, 1]), ext=ext)
+            seq += 1
+            L.append(pkt_op("protect", 1, pkt, cap=len(pkt) + p.trailer(), mode=rng.choice([0, 0, 1, 2]))); a = len(L)
+            # plain text fed to unprotect directly as well (forged when there is no tag): exact-size output
+            if notag:
+                L.append(pkt_op("unprotect", 2, pkt, cap=len(pkt), mode=rng.choice([0, 1, 2])))
+                seq += 1
+            else:
+                L.append(pkt_op("unprotect", 2, f"@{a:x}", cap=len(pkt), mode=rng.choice([0, 1, 2])))
+        L += ["dealloc 1", "dealloc 2"]
+        out.append((f"xtn-edge-{k}", "\n".join(L) + "\n"))
+    return out
+
+
 def monitor(script, c):
     hits = []
     for l in c:
@@ -190,4 +222,5 @@ def families(tier, seed):
     rng = random.Random(seed * 1000 + 10)
     return [Family("policy-envelope", envelope_scripts(rng, tier), monitor=monitor),
             Family("malformed-packets", malformed_scripts(rng, tier), monitor=monitor),
-            Family("forged-by-key-holder", forged_scripts(rng, tier), monitor=monitor)]
+            Family("forged-by-key-holder", forged_scripts(rng, tier), monitor=monitor),
+            Family("xtn-edge-shapes", xtn_edge_scripts(rng, tier), monitor=monitor)]
